@@ -64,6 +64,9 @@ func guardSitesOf(p *Prog, fn *ssa.Function) []guardSite {
 						name = fmt.Sprintf("return:%v", bv)
 					} else if b, isB := x.Results[0].Type().Underlying().(*types.Basic); isB && b.Kind() == types.Bool {
 						name = "return:" + descValue(x.Results[0], 0)
+					} else if isB && b.Info()&types.IsInteger != 0 && isCmpFunc(fn) {
+						// verdicts of ordering functions (negative / zero / positive)
+						name = "return:" + descValue(x.Results[0], 0)
 					}
 				}
 			}
@@ -350,8 +353,15 @@ func isLogCall(in ssa.Instruction) bool {
 // rewriteBools: also report bool flags (dump / flag audit only).
 var rewriteBools = true
 
+// rewriteComputed: also report string variables that are conditionally replaced by a computed value.
+var rewriteComputed = true
+
 func rewriteSitesOf(p *Prog, fn *ssa.Function) []guardSite {
 	var out []guardSite
+	// the session layer (device.go: dialogue, requests, message texts) is not planner or parser code
+	if strings.HasSuffix(p.Fset.Position(fn.Pos()).Filename, "/device.go") {
+		return nil
+	}
 	for _, b := range fn.Blocks {
 		if naturalLoopBody(b) != nil {
 			continue
@@ -376,7 +386,7 @@ func rewriteSitesOf(p *Prog, fn *ssa.Function) []guardSite {
 				if c, isC := e.(*ssa.Const); isC && c.Value != nil {
 					distinct["c"+c.Value.ExactString()] = true
 				} else {
-					distinct["v"] = true
+					distinct[fmt.Sprintf("v%p", e)] = true
 				}
 			}
 			if len(distinct) < 2 {
@@ -384,7 +394,19 @@ func rewriteSitesOf(p *Prog, fn *ssa.Function) []guardSite {
 			}
 			for i, e := range ph.Edges {
 				c, isC := e.(*ssa.Const)
-				if !isC || c.Value == nil {
+				cname := ""
+				if isC && c.Value != nil {
+					cname = c.Value.ExactString()
+				} else if rewriteComputed && isStringType(ph.Type()) {
+					// a computed replacement: concatenation or call result (not a plain variable / phi)
+					switch e.(type) {
+					case *ssa.BinOp, *ssa.Call:
+						cname = descValue(e, 2)
+					case *ssa.Extract:
+						cname = descValue(e, 2)
+					}
+				}
+				if cname == "" {
 					continue
 				}
 				pr := b.Preds[i]
@@ -405,7 +427,7 @@ func rewriteSitesOf(p *Prog, fn *ssa.Function) []guardSite {
 						g += descCond(iff.Cond, k == 0)
 					}
 				}
-				out = append(out, guardSite{fn, "rewrite:" + c.Value.ExactString(), ph, g})
+				out = append(out, guardSite{fn, "rewrite:" + cname, ph, g})
 			}
 		}
 	}
@@ -438,4 +460,56 @@ func ruleRewriteDiscipline(p *Prog, r *Report, rule, prop string, pkgs map[strin
 		}
 	}
 	r.floor(rule, "conditional constant assignments", n, floor)
+}
+
+// isCmpFunc: an ordering function: two parameters of one type (after a receiver), one int result.
+func isCmpFunc(fn *ssa.Function) bool {
+	res := fn.Signature.Results()
+	if res.Len() != 1 {
+		return false
+	}
+	if b, ok := res.At(0).Type().Underlying().(*types.Basic); !ok || b.Info()&types.IsInteger == 0 {
+		return false
+	}
+	ps := fn.Params
+	if fn.Signature.Recv() != nil && len(ps) > 0 {
+		ps = ps[1:]
+	}
+	if len(ps) != 2 || !types.Identical(ps[0].Type(), ps[1].Type()) {
+		return false
+	}
+	// named functions and closures bound to a variable (the helpers that decide how two elements
+	// compare); an inline literal that chains field comparisons is content by construction
+	return fn.Parent() == nil || closureName(fn) != ""
+}
+
+// ruleOrderingAudited: the ordering functions that bring device and target into one canonical
+// order before they are compared.
+func ruleOrderingAudited(p *Prog, r *Report, rule, prop string, pkgs map[string]bool, floor int) {
+	r.rule(rule, "Both sides are brought into one canonical order by content only: every ordering function of the package (two parameters of one type, int result: the functions given to slices.SortFunc and their helpers) has its verdicts audited — what is returned under which conditions (rows `return:...` of tables/guards.tsv). An ordering that falls back to names or ids, which are generated and differ between device and target, sorts equal content differently on the two sides and makes the diff report changes for ever.")
+	have := map[string]bool{}
+	for _, row := range readTable("guards.tsv", 5) {
+		have[row[0]+"|"+row[1]] = true
+	}
+	n := 0
+	for _, fn := range allModFuncs(p) {
+		if !pkgs[pkgOfFunc(fn)] || fn.Synthetic != "" || !isCmpFunc(fn) || len(fn.Blocks) == 0 {
+			continue
+		}
+		n++
+		seen := map[string]bool{}
+		for _, gs := range guardSitesOf(p, fn) {
+			if !strings.HasPrefix(gs.Name, "return:") {
+				continue
+			}
+			k := fnDisplay(fn) + "|" + gs.Name
+			if seen[k] {
+				continue
+			}
+			seen[k] = true
+			r.add(rule, "ordering-audited|"+k, p.ipos(gs.In), "the verdict "+gs.Name[len("return:"):]+" of the ordering function "+fnDisplay(fn)+" is audited", have[k],
+				"an ordering function returns a verdict that was never audited")
+		}
+	}
+	r.floor(rule, "ordering functions", n, floor)
 }
